@@ -1,0 +1,310 @@
+//! Verification hooks for `deflate::core` (feature `verif-hooks`, off by default).
+//!
+//! Read/construct access to private items plus marker / cut bodies used by the
+//! model checker via `-Z stubbing`; no behaviour of the crate changes.
+#![allow(missing_docs, private_interfaces, unexpected_cfgs)]
+
+use super::*;
+
+pub const ROUTE_NONE: u8 = 0;
+pub const ROUTE_STORED: u8 = 1;
+pub const ROUTE_FAST: u8 = 2;
+pub const ROUTE_NORMAL: u8 = 3;
+pub const MARK_FLUSH_BLOCK: u8 = 0x40;
+
+pub fn header_from_flags(flags: u32, window_bits: u8) -> [u8; 2] {
+    zlib::header_from_flags(flags, window_bits)
+}
+
+pub fn len_sym(i: usize) -> u8 {
+    LEN_SYM[i]
+}
+pub fn len_extra(i: usize) -> u8 {
+    LEN_EXTRA[i]
+}
+pub fn small_dist_sym(i: usize) -> u8 {
+    SMALL_DIST_SYM[i]
+}
+pub fn small_dist_extra(i: usize) -> u8 {
+    SMALL_DIST_EXTRA[i]
+}
+pub fn large_dist_sym(i: usize) -> u8 {
+    LARGE_DIST_SYM[i]
+}
+pub fn large_dist_extra(i: usize) -> u8 {
+    LARGE_DIST_EXTRA[i]
+}
+pub fn num_probes(level: usize) -> u16 {
+    NUM_PROBES[level]
+}
+pub fn probes_from_flags_hook(flags: u32) -> [u32; 2] {
+    probes_from_flags(flags)
+}
+
+/// Snapshot of the scalar compressor fields.
+#[derive(Copy, Clone, PartialEq, Eq, Debug)]
+pub struct Scalars {
+    pub flags: u32,
+    pub greedy_parsing: bool,
+    pub window_bits_max: u8,
+    pub block_index: u32,
+    pub saved_match_dist: u32,
+    pub saved_match_len: u32,
+    pub saved_lit: u8,
+    pub flush: TDEFLFlush,
+    pub flush_ofs: u32,
+    pub flush_remaining: u32,
+    pub finished: bool,
+    pub adler32: u32,
+    pub src_pos: usize,
+    pub out_buf_ofs: usize,
+    pub prev_return_status: TDEFLStatus,
+    pub saved_bit_buffer: u32,
+    pub saved_bits_in: u32,
+    pub lz_code_position: usize,
+    pub lz_flag_position: usize,
+    pub lz_total_bytes: u32,
+    pub lz_num_flags_left: u32,
+    pub max_probes: [u32; 2],
+    pub code_buf_dict_pos: usize,
+    pub lookahead_size: usize,
+    pub lookahead_pos: usize,
+    pub dict_size: usize,
+    pub loop_len: u8,
+}
+
+impl CompressorOxide {
+    pub fn verif_scalars(&self) -> Scalars {
+        Scalars {
+            flags: self.params.flags,
+            greedy_parsing: self.params.greedy_parsing,
+            window_bits_max: self.params.window_bits_max,
+            block_index: self.params.block_index,
+            saved_match_dist: self.params.saved_match_dist,
+            saved_match_len: self.params.saved_match_len,
+            saved_lit: self.params.saved_lit,
+            flush: self.params.flush,
+            flush_ofs: self.params.flush_ofs,
+            flush_remaining: self.params.flush_remaining,
+            finished: self.params.finished,
+            adler32: self.params.adler32,
+            src_pos: self.params.src_pos,
+            out_buf_ofs: self.params.out_buf_ofs,
+            prev_return_status: self.params.prev_return_status,
+            saved_bit_buffer: self.params.saved_bit_buffer,
+            saved_bits_in: self.params.saved_bits_in,
+            lz_code_position: self.lz.code_position,
+            lz_flag_position: self.lz.flag_position,
+            lz_total_bytes: self.lz.total_bytes,
+            lz_num_flags_left: self.lz.num_flags_left,
+            max_probes: self.dict.max_probes,
+            code_buf_dict_pos: self.dict.code_buf_dict_pos,
+            lookahead_size: self.dict.lookahead_size,
+            lookahead_pos: self.dict.lookahead_pos,
+            dict_size: self.dict.size,
+            loop_len: self.dict.loop_len,
+        }
+    }
+
+    pub fn verif_set_scalars(&mut self, s: &Scalars) {
+        self.params.flags = s.flags;
+        self.params.greedy_parsing = s.greedy_parsing;
+        self.params.window_bits_max = s.window_bits_max;
+        self.params.block_index = s.block_index;
+        self.params.saved_match_dist = s.saved_match_dist;
+        self.params.saved_match_len = s.saved_match_len;
+        self.params.saved_lit = s.saved_lit;
+        self.params.flush = s.flush;
+        self.params.flush_ofs = s.flush_ofs;
+        self.params.flush_remaining = s.flush_remaining;
+        self.params.finished = s.finished;
+        self.params.adler32 = s.adler32;
+        self.params.src_pos = s.src_pos;
+        self.params.out_buf_ofs = s.out_buf_ofs;
+        self.params.prev_return_status = s.prev_return_status;
+        self.params.saved_bit_buffer = s.saved_bit_buffer;
+        self.params.saved_bits_in = s.saved_bits_in;
+        self.lz.code_position = s.lz_code_position;
+        self.lz.flag_position = s.lz_flag_position;
+        self.lz.total_bytes = s.lz_total_bytes;
+        self.lz.num_flags_left = s.lz_num_flags_left;
+        self.dict.max_probes = s.max_probes;
+        self.dict.code_buf_dict_pos = s.code_buf_dict_pos;
+        self.dict.lookahead_size = s.lookahead_size;
+        self.dict.lookahead_pos = s.lookahead_pos;
+        self.dict.size = s.dict_size;
+        self.dict.loop_len = s.loop_len;
+    }
+
+    pub fn verif_lz_code(&self, i: usize) -> u8 {
+        self.lz.codes[i]
+    }
+    pub fn verif_local_buf(&self, i: usize) -> u8 {
+        self.params.local_buf.b[i]
+    }
+    pub fn verif_set_local_buf(&mut self, i: usize, v: u8) {
+        self.params.local_buf.b[i] = v;
+    }
+    pub fn verif_dict(&self, i: usize) -> u8 {
+        self.dict.b.dict[i]
+    }
+    pub fn verif_next(&self, i: usize) -> u16 {
+        self.dict.b.next[i]
+    }
+    pub fn verif_hash(&self, i: usize) -> u16 {
+        self.dict.b.hash[i]
+    }
+    pub fn verif_huff_count(&self, t: usize, i: usize) -> u16 {
+        self.huff.count[t][i]
+    }
+    pub fn verif_huff_code(&self, t: usize, i: usize) -> u16 {
+        self.huff.codes[t][i]
+    }
+    pub fn verif_huff_code_size(&self, t: usize, i: usize) -> u8 {
+        self.huff.code_sizes[t][i]
+    }
+
+    /// Which back end a marker-stubbed `compress_inner` selected (`ROUTE_*`),
+    /// and whether the final `flush_block` marker ran (`MARK_FLUSH_BLOCK`).
+    pub fn verif_route_mark(&self) -> u8 {
+        self.params.saved_lit
+    }
+
+    /// Overwrite every array and scalar of the compressor with unconstrained
+    /// symbolic values (settings `flags`, `greedy_parsing`, `window_bits_max`,
+    /// `max_probes`, `loop_len` are kept).
+    #[cfg(kani)]
+    pub fn verif_havoc_state(&mut self) {
+        self.lz.codes = kani::any();
+        self.lz.code_position = kani::any();
+        self.lz.flag_position = kani::any();
+        self.lz.total_bytes = kani::any();
+        self.lz.num_flags_left = kani::any();
+        self.params.block_index = kani::any();
+        self.params.saved_match_dist = kani::any();
+        self.params.saved_match_len = kani::any();
+        self.params.saved_lit = kani::any();
+        let f: u8 = kani::any();
+        self.params.flush = match f & 7 {
+            0 => TDEFLFlush::None,
+            1 => TDEFLFlush::Partial,
+            2 => TDEFLFlush::Sync,
+            3 => TDEFLFlush::Full,
+            4 => TDEFLFlush::Finish,
+            5 => TDEFLFlush::PartialOpt,
+            6 => TDEFLFlush::SyncOpt,
+            _ => TDEFLFlush::NoSync,
+        };
+        self.params.flush_ofs = kani::any();
+        self.params.flush_remaining = kani::any();
+        self.params.finished = kani::any();
+        self.params.adler32 = kani::any();
+        self.params.src_pos = kani::any();
+        self.params.out_buf_ofs = kani::any();
+        let s: u8 = kani::any();
+        self.params.prev_return_status = match s & 3 {
+            0 => TDEFLStatus::BadParam,
+            1 => TDEFLStatus::PutBufFailed,
+            2 => TDEFLStatus::Okay,
+            _ => TDEFLStatus::Done,
+        };
+        self.params.saved_bit_buffer = kani::any();
+        self.params.saved_bits_in = kani::any();
+        self.params.local_buf.b = kani::any();
+        self.huff.count = kani::any();
+        self.huff.codes = kani::any();
+        self.huff.code_sizes = kani::any();
+        *self.dict.b.dict = kani::any();
+        *self.dict.b.next = kani::any();
+        *self.dict.b.hash = kani::any();
+        self.dict.code_buf_dict_pos = kani::any();
+        self.dict.lookahead_size = kani::any();
+        self.dict.lookahead_pos = kani::any();
+        self.dict.size = kani::any();
+    }
+}
+
+/// Result of [`emit_one_match`].
+pub struct OneMatch {
+    /// First bytes of what `compress_lz_codes` emitted.
+    pub bytes: [u8; 8],
+    /// Number of whole bytes written (`usize::MAX` if the encoder reported an error).
+    pub len: usize,
+    /// Literal/length frequency table after `record_match`.
+    pub count0: [u16; MAX_HUFF_SYMBOLS],
+    /// Distance frequency table after `record_match`.
+    pub count1: [u16; MAX_HUFF_SYMBOLS],
+    /// LZ bytes recorded for the block.
+    pub total_bytes: u32,
+}
+
+/// Run the real `record_match` on a fresh LZ buffer / frequency table and then the
+/// real `compress_lz_codes` with an identity code (litlen: 9 bits, code = symbol index;
+/// dist: 5 bits, code = symbol index) so that the emitted bit string exposes which
+/// symbols and extra bits the compressor's tables select for `(match_len, match_dist)`.
+pub fn emit_one_match(match_len: u32, match_dist: u32) -> OneMatch {
+    let mut huff = HuffmanOxide::default();
+    let mut lz = LZOxide::new();
+    record_match(&mut huff, &mut lz, match_len, match_dist);
+    let count0 = huff.count[0];
+    let count1 = huff.count[1];
+    let mut k = 0usize;
+    while k < MAX_HUFF_SYMBOLS_0 {
+        huff.codes[0][k] = k as u16;
+        huff.code_sizes[0][k] = 9;
+        k += 1;
+    }
+    let mut m = 0usize;
+    while m < MAX_HUFF_SYMBOLS_1 {
+        huff.codes[1][m] = m as u16;
+        huff.code_sizes[1][m] = 5;
+        m += 1;
+    }
+    let mut buf = [0u8; 32];
+    let mut out = OutputBufferOxide {
+        inner: &mut buf[..],
+        inner_pos: 0,
+        local: true,
+        bit_buffer: 0,
+        bits_in: 0,
+    };
+    // What `flush_block` does to the flag byte before encoding the LZ codes.
+    lz.init_flag();
+    let ok = compress_lz_codes(&huff, &mut out, &lz.codes, lz.code_position).is_ok();
+    let len = if ok { out.inner_pos } else { usize::MAX };
+    let mut bytes = [0u8; 8];
+    bytes.copy_from_slice(&buf[..8]);
+    OneMatch {
+        bytes,
+        len,
+        count0,
+        count1,
+        total_bytes: lz.total_bytes,
+    }
+}
+
+// ---- marker / cut bodies for `-Z stubbing` ----
+
+pub fn mark_compress_stored(d: &mut CompressorOxide, _callback: &mut CallbackOxide) -> bool {
+    d.params.saved_lit = (d.params.saved_lit & MARK_FLUSH_BLOCK) | ROUTE_STORED;
+    true
+}
+
+pub fn mark_compress_fast(d: &mut CompressorOxide, _callback: &mut CallbackOxide) -> bool {
+    d.params.saved_lit = (d.params.saved_lit & MARK_FLUSH_BLOCK) | ROUTE_FAST;
+    true
+}
+
+pub fn mark_compress_normal(d: &mut CompressorOxide, _callback: &mut CallbackOxide) -> bool {
+    d.params.saved_lit = (d.params.saved_lit & MARK_FLUSH_BLOCK) | ROUTE_NORMAL;
+    true
+}
+
+pub fn mark_flush_block(
+    d: &mut CompressorOxide,
+    _callback: &mut CallbackOxide,
+    _flush: TDEFLFlush,
+) -> Result<i32> {
+    d.params.saved_lit |= MARK_FLUSH_BLOCK;
+    Ok(0)
+}
